@@ -62,6 +62,7 @@ SCRIPTS = {
     'pools-override-subclass': "from pedal import *\nfrom pedal.core.commands import set_pools\nset_pools(['A'])\ngently.override_for_pool('A', message='Message of pool A', title='Pool A')\nif call('add', 1, 2) != 3:\n    gently('add is wrong', label='add_wrong')\n",
     'pools-plain-user': "from pedal import *\nfrom pedal.core.commands import set_pools\nset_pools(['A'])\nif call('add', 1, 2) != 3:\n    gently('add gives another sum here', label='add_wrong_again')\n",
     'gradescope-maximum': "from pedal import *\nfrom pedal.environments.gradescope import set_maximum_score\nset_maximum_score(100)\nassert_equal(call('add', 1, 2), 3, score='+50%')\ncompliment('a start', score='+25%')\n",
+    'gradescope-maximum-then-crash': "from pedal import *\nfrom pedal.environments.gradescope import set_maximum_score\nset_maximum_score(50)\nassert_equal(call('add', 1, 2), 3, score='+50%')\nraise ValueError('the script itself fails before it resolves')\n",
     'gradescope-plain': "from pedal import *\nassert_equal(call('add', 1, 2), 3, score='+50%')\ncompliment('a start', score='+25%')\n",
     'pools-two': "from pedal import *\nfrom pedal.sandbox.feedbacks import runtime_error\nfrom pedal.core.commands import set_pools\nset_pools(2)\nruntime_error.override_for_pool(['A', 'B'], muted=True)\nassert_equal(call('add', 2, 2), 4)\n",
     'checks-library-values': "from pedal import *\nassert_equal(evaluate('round(math.pi, 3)'), 3.142)\nassert_equal(evaluate(\"hasattr(string, 'vowels')\"), False)\nassert_equal(call('add', 1, 2), 3)\n",
@@ -132,6 +133,7 @@ DESIGNED_PAIRS = [
     [('pools-override', 'wrong'), ('plain-assert', 'wrong'), ('plain-assert', 'crash')],
     [('pools-two', 'crash'), ('plain-assert', 'crash'), ('static-checks', 'name-error')],
     [('gradescope-maximum', 'wrong'), ('gradescope-plain', 'wrong'), ('gradescope-plain', 'good'), ('gradescope-maximum', 'good')],
+    [('gradescope-maximum-then-crash', 'good'), ('gradescope-plain', 'wrong'), ('gradescope-plain', 'wrong'), ('gradescope-plain', 'good')],
     [('pools-override-subclass', 'wrong'), ('pools-plain-user', 'wrong'), ('pools-plain-user', 'good')],
     [('pools-plain-user', 'wrong'), ('pools-override-subclass', 'good'), ('pools-plain-user', 'wrong'), ('pools-override-subclass', 'wrong')],
     [('clears-report-and-suppresses', 'crash'), ('plain-assert', 'crash'), ('plain-assert', 'syntax')],
@@ -168,7 +170,7 @@ def library():
     subs = list(SUBMISSIONS)
     special = {'sections-left-open': ['sections', 'good'], 'sections-independent': ['sections', 'crash'],
                'inputs-and-output': ['reads-input', 'good'], 'mock-module': ['imports', 'good'], 'block-module': ['imports', 'good'],
-               'gradescope-maximum': ['wrong', 'good'], 'gradescope-plain': ['wrong', 'good'],
+               'gradescope-maximum': ['wrong', 'good'], 'gradescope-plain': ['wrong', 'good'], 'gradescope-maximum-then-crash': ['good', 'wrong'],
                'pools-override-subclass': ['wrong', 'good'], 'pools-plain-user': ['wrong', 'good'],
                'override-twice': ['syntax', 'good'], 'override-tifa': ['unused-var', 'name-error'],
                'override-parent': ['crash', 'name-error'], 'override-child': ['name-error', 'crash'],
